@@ -305,7 +305,9 @@ package resource_division
 //@   loop 1
 //@     invariant sortedQueues != nil && fresh(sortedQueues) && fresh(sortedQueues.queue.items)
 //@     invariant oldQueuesKept()
-//@     invariant pqFromTable(sortedQueues, remainingRequested)
+//@     invariant forall i int :: 0 <= i && i < len(sortedQueues.queue.items) ==> typeis(sortedQueues.queue.items[i], "*remainingRequestedResource") && unbox(sortedQueues.queue.items[i], "*remainingRequestedResource") != nil
+//@     invariant forall i int :: 0 <= i && i < len(sortedQueues.queue.items) ==> unbox(sortedQueues.queue.items[i], "*remainingRequestedResource").queue != nil && unbox(sortedQueues.queue.items[i], "*remainingRequestedResource").queue.UID in remainingRequested
+//@     invariant forall i int :: 0 <= i && i < len(sortedQueues.queue.items) ==> remainingRequested[unbox(sortedQueues.queue.items[i], "*remainingRequestedResource").queue.UID] == unbox(sortedQueues.queue.items[i], "*remainingRequestedResource")
 //@     invariant cur(totalResourceAmount) >= 0.0 && cur(totalResourceAmount) <= totalResourceAmount
 //@     invariant rrKeyed(remainingRequested)
 //@     invariant forall q *rs.QueueAttributes :: q != nil ==> fair(q, resourceName) >= old(fair(q, resourceName)) && otherResKept(q, resourceName)
